@@ -380,4 +380,76 @@ theorem location_is_target_with_transformed_values (cf : CaseFns) (r : Rule) (pr
   simp only [Rule.outcomeSpec, Rule.outcomeWith, ht, hne', Bool.false_eq_true, if_false]
   rw [subst_congr hmem hlook]
 
+/-! ### Non-vacuity -/
+
+/-- `substitution` on names that are prefixes of one another, a reference followed by name-extending text, an
+unknown reference and a trailing `@`: hypotheses hold, and the value is what one expects. -/
+example :
+    let vs : List (Str × Str) := [(['a'], ['1']), (['a','b'], ['x','y']), (['a','b','c'], ['f','o','o'])]
+    let t : Str := ['/','@','a','b','c','-','@','a','b','-','@','a','-','@','a','b','c','d','-','@','a','b','x','-','@','q','@']
+    namesNoAt vs = true ∧ valuesNoAt vs = true ∧ noJoin vs t = true ∧
+    replaceVars t (sortByLen vs) = ['/','f','o','o','-','x','y','-','1','-','f','o','o','d','-','x','y','x','-','@','q','@'] := by
+  decide
+
+/-- `regex_is_tokens` on a template with a meta character, two markers sharing a prefix and a stray `@`. -/
+example :
+    let ms : List (Str × Str) := [(['i','d'], ['[','0','-','9',']','+']), (['i','d','2'], ['[','a','-','z',']','+'])]
+    let t : Str := ['/','a','.','b','/','@','i','d','/','@','i','d','2','@']
+    namesPlain ms = true ∧ regexNoAt ms = true ∧
+    tokens t ms = [.lit '/', .lit 'a', .lit '.', .lit 'b', .lit '/', .grp ['i','d'] ['[','0','-','9',']','+'], .lit '/',
+                   .grp ['i','d','2'] ['[','a','-','z',']','+'], .lit '@'] ∧
+    (build t ms).regex = "/a\\.b/(?:[0-9]+)/(?:[a-z]+)@".toList := by
+  refine ⟨by decide, by decide, by decide, ?_⟩
+  decide
+
+/-- The engine laws are satisfiable for every language, comparison and token list (so the theorems that assume
+them are not vacuous): take the specification itself as the engine. -/
+theorem engineLaws_satisfiable (L : Str → Str → Prop) (ceq : Char → Char → Bool) (ts : List Tok) :
+    ∃ full search caps, EngineLaws L ceq full search caps ts := by
+  classical
+  refine ⟨fun _ s => decide (∃ vs, Decomp L ceq ts s vs),
+    fun _ s => decide (∃ a mid b vs, s = a ++ mid ++ b ∧ Decomp L ceq ts mid vs),
+    fun _ s => if h : ∃ vs, Decomp L ceq ts s vs then some (Classical.choose h) else none, ?_⟩
+  refine ⟨?_, ?_, ?_, ?_⟩
+  · intro s; simp
+  · intro s; simp
+  · intro s m _ h
+    by_cases hex : ∃ vs, Decomp L ceq ts s vs
+    · simp only [hex, dite_true, Option.some.injEq] at h
+      subst h
+      exact ⟨_, Classical.choose_spec hex, fun _ => rfl⟩
+    · simp [hex] at h
+  · intro s _ hex
+    simp [hex]
+
+/-- A concrete instance of the matching theorems: template `/p/@id/x`, `id` accepting non-empty digit strings
+(`L`), exact char comparison.  The template is delimiter-separated for every digit-free-of-`/` value; so the
+instantiation matches iff the value is a non-empty digit string. -/
+example (full search : Str → Str → Bool) (caps : Str → Str → Option (List (Str × Str)))
+    (re : Str) (hre : noAt re = true)
+    (laws : EngineLaws (fun _ v => v ≠ [] ∧ ∀ c ∈ v, c.isDigit = true) (fun a b => a == b) full search caps
+      (tokens ['/','p','/','@','i','d','/','x'] [(['i','d'], re)]))
+    (v : Str) (hv : '/' ∉ v) :
+    full (build ['/','p','/','@','i','d','/','x'] [(['i','d'], re)]).regex
+        (instOf (tokens ['/','p','/','@','i','d','/','x'] [(['i','d'], re)]) (fun _ => v)) = true
+      ↔ (v ≠ [] ∧ ∀ c ∈ v, c.isDigit = true) := by
+  have htok : tokens ['/','p','/','@','i','d','/','x'] [(['i','d'], re)] =
+      [.lit '/', .lit 'p', .lit '/', .grp ['i','d'] re, .lit '/', .lit 'x'] := by
+    simp [tokens, parse, parseAux, longest, pre, names, tokOf, blen, List.lookup]
+  have hplain : namesPlain [((['i','d'] : Str), re)] = true := by
+    simp [namesPlain, plainName, isMeta]
+  have hnoat : regexNoAt [((['i','d'] : Str), re)] = true := by simp [regexNoAt, hre]
+  rw [match_iff_all_accepted _ _ full search caps (by simp) _ _ laws hplain hnoat]
+  · rw [htok]; simp
+  · rw [htok]
+    simp only [Delimited]
+    refine ⟨?_, ?_, trivial⟩
+    · intro x hx
+      have : x ≠ '/' := fun e => hv (e ▸ hx)
+      simpa using fun e => this e.symm
+    · intro w hw x hx
+      have hd := hw.2 x hx
+      have : x ≠ '/' := by intro e; subst e; simp [Char.isDigit] at hd
+      simpa using fun e => this e.symm
+
 end Rio.C10
